@@ -141,9 +141,9 @@ def run_from(c, x0):
             y = r.call(U[t:t + 1], from_state=x_in)
             if not np.array_equal(np.asarray(x_in, dtype=float), before):
                 raise CallerArrayChanged(f"call(u, from_state=x) overwrote the caller's array x at step {t}")
-            rows.append(np.array(y, dtype=float).reshape(-1).copy())
+            rows.append(y)            # kept as returned, WITHOUT a copy: a row handed out must not change afterwards
             x = np.array(y, dtype=float)
-        out = np.array(rows)
+        out = np.array([np.array(r_, dtype=float).reshape(-1) for r_ in rows])
     elif c["mode"] == "runs1":
         # streaming: one-step runs, each started from the state the previous one returned
         rows, x = [], mine
